@@ -236,6 +236,8 @@ def main(argv=None):
         print(f"CHECKER-ERROR {full}: {why}")
 
     extra_cov = {}
+    if tier == "thorough" and prop in ("C01", "C12", "C14"):
+        extra_cov["lean_lemmas"] = lean_status()
     if prop == "C06":
         extra_cov = assert_coverage(ledger)
     wall = time.time() - t0
@@ -276,13 +278,35 @@ def main(argv=None):
             json.dump(ledger, f, indent=1, sort_keys=True)
 
     print(f"{prop} [{tier}] units={len(names)} obligations={n_ob} discharged={n_dis} violations={len(vio_lines)} known={len(known_hits)} undecided={len(undecided)} errors={len(errors)} wall={wall:.1f}s")
+    if vio_lines:
+        return 1  # a named obligation failed (checker errors, if any, are printed above)
     if errors:
         return 3
-    if vio_lines:
-        return 1
     if undecided:
         return 2
     return 0
+
+
+def lean_status():
+    """compile lean/LA.lean (LA1-LA5); cached by file hash; a failing build means the lemmas are ASSUMED this run"""
+    import subprocess
+
+    src = os.path.join(ROOT, "lean", "LA.lean")
+    h = hashlib.sha256(open(src, "rb").read()).hexdigest()[:16]
+    cache = os.path.join(ROOT, "lean", ".cache_" + h)
+    if os.path.exists(cache):
+        return json.load(open(cache))
+    t0 = time.time()
+    try:
+        p = subprocess.run(["lean", src], capture_output=True, text=True, timeout=1500, cwd=os.path.join(ROOT, "lean"))
+        ok = p.returncode == 0 and "error" not in p.stdout.lower()
+        out = {"file": "lean/LA.lean", "sha": h, "built": ok, "seconds": round(time.time() - t0, 1), "output_tail": (p.stdout + p.stderr)[-400:],
+               "status": "LA1-LA5 machine-checked by Lean 4 / Mathlib on this run" if ok else "Lean build failed: LA1-LA5 are ASSUMED for this run"}
+    except Exception as e:  # noqa
+        out = {"file": "lean/LA.lean", "sha": h, "built": False, "status": f"Lean not run ({type(e).__name__}): LA1-LA5 are ASSUMED for this run"}
+    if out.get("built"):
+        json.dump(out, open(cache, "w"))
+    return out
 
 
 def assert_coverage(ledger):
